@@ -481,7 +481,9 @@ def _sibling(case):
             keys = ["high"]        # the array-valued `low` is built below `high`
         k = srng.choice(keys)
         c2["P"] = dict(case["P"], **{k: _TWEAK[k](case["P"][k])})
-        return k, c2
+        # one label for all of loc/scale/low/high/lam/n/p/a/b/df/shape: they reach the name through one token (_wrap_func);
+        # which parameter was changed is in the witness detail
+        return "distribution-parameter", c2
     if what == "size":
         ax = srng.randrange(len(shape))
         shape[ax] += 1
